@@ -3,4 +3,4 @@
 jobs="${1:-3}"
 cd /verif
 ls seeded | grep -v obsolete | xargs -P "$jobs" -I{} sh -c 'tools/selftest.sh "{}" 2>&1 | grep -E "^(ok|MISS|FALSE-ALARM|SKIP)" | grep -v harmless'
-for h in rename-param shift-lines reorder-fields; do tools/selftest.sh "$h" 2>&1 | grep harmless; done
+for h in rename-param shift-lines reorder-fields rename-local; do tools/selftest.sh "$h" 2>&1 | grep harmless; done
